@@ -50,7 +50,7 @@ PROPS["C02"] = {
         {"bin": "hv", "args": ["c02"]},
         {"bin": "hvt", "args": ["c02"]},
     ],
-    "min": {"quick": {"requests": 2_500, "parses": 300_000, "requests_over_20_fields": 100, "requests_with_xff": 300},
+    "min": {"quick": {"requests": 2_500, "parses": 300_000, "requests_over_20_fields": 100, "requests_with_xff": 300, "timed_parses_faithful": 10},
             "thorough": {"requests": 50_000}},
     "assumptions": [],
     "level_text": "Generated well-formed requests are parsed by the real parser under every read plan (whole, bytewise, every split point, random multi-split) and compared field by field with the generating model; the serialisation is judged by a strict reference reader and re-parsed.",
